@@ -28,6 +28,10 @@ class TurnBasedManager(SimulationManager):
             if not is_agent(agent)
         )
         self.sim.reset(**kwargs)
+        self.agent_order = cycle({
+            agent_id: agent for agent_id, agent in self.agents.items()
+            if is_agent(agent)
+        })
         next_agent = next(self.agent_order)
         return {next_agent: self.sim.get_obs(next_agent)}
 
